@@ -118,6 +118,9 @@ func (packet *ParsePacket) Zeroize() {
 	utils.ZeroizeBytes(packet.query)
 }
 
+// ErrMalformedParsePacket is returned for a Parse packet that is shorter than the fields it announces
+var ErrMalformedParsePacket = errors.New("malformed Parse packet")
+
 // NewParsePacket parse data and return as ParsePacket or error
 func NewParsePacket(data []byte) (*ParsePacket, error) {
 	startIndex := bytes.Index(data, terminator)
@@ -134,11 +137,18 @@ func NewParsePacket(data []byte) (*ParsePacket, error) {
 	// convert to absolute
 	endIndex += startIndex + 1
 	query := data[startIndex:endIndex]
+	// the parameter count and the parameter type OIDs it announces must be inside the packet
+	if endIndex+2 > len(data) {
+		return nil, ErrMalformedParsePacket
+	}
 	numParams := paramsNum(data[endIndex : endIndex+2])
 	endIndex += 2
 	var params []objectID
 	if endIndex < len(data) {
 		for i := 0; i < numParams.ToInt(); i++ {
+			if endIndex+4 > len(data) {
+				return nil, ErrMalformedParsePacket
+			}
 			params = append(params, data[endIndex:endIndex+4])
 			endIndex += 4
 		}
